@@ -113,7 +113,9 @@ def snap(x, depth=0):
 def observables(d):
     out = {}
     for k in ("natom", "charge", "nelec", "spinpol"):
-        out[k] = repr(getattr(d, k))
+        # every property is read from its own copy of the object: what one getter stores (lazy defaults) must not
+        # influence what is recorded for another one
+        out[k] = repr(getattr(copy.copy(d), k))
     if d.mo is not None and d.mo.kind != "generalized":
         out["mo"] = (repr(d.mo.nelec), repr(d.mo.spinpol), None if d.mo.occsa is None else d.mo.occsa.tobytes())
     if d.obasis is not None:
@@ -195,24 +197,32 @@ for name, d in objects():
                 if s0 != s1 and k0 != "_atcorenums": fails.append(((name, prog, k0), "write_input altered the caller's object: attribute " + k0)); break
 # an object whose charge was assigned while the atoms were still unknown (the private _charge keeps the value until a
 # getter is called) and that nobody has read before it is handed to dump_one: the outcome must not depend on that
-def early(read_first):
+def early(read_first, with_mo=True):
     shells = [Shell(0, [0, 0, 1], ["c", "c", "c"], np.array([1.0, 0.3]), np.ones((2, 3)) * 0.4), Shell(1, [0], ["c"], np.array([0.8]), np.array([[1.0]]))]
     e = IOData()
     e.charge = 3.0
     e.atnums = [8, 1]
     e.atcoords = np.array([[0.0, 0, 0], [0, 0, 1.8]])
     e.title = "t"
-    e.obasis = MolecularBasis(shells, HORTON2_CONVENTIONS, "L2")
-    e.mo = MolecularOrbitals("restricted", 6, 6, occs=np.array([2.0, 1, 1, 0, 0, 0]), occs_aminusb=np.array([0.0, 1, -1, 0, 0, 0]), coeffs=np.eye(6), energies=np.arange(6.0), irreps=["a"] * 6)
+    if with_mo:
+        e.obasis = MolecularBasis(shells, HORTON2_CONVENTIONS, "L2")
+        e.mo = MolecularOrbitals("restricted", 6, 6, occs=np.array([2.0, 1, 1, 0, 0, 0]), occs_aminusb=np.array([0.0, 1, -1, 0, 0, 0]), coeffs=np.eye(6), energies=np.arange(6.0), irreps=["a"] * 6)
+    else:
+        e.one_ints = {"core_mo": np.eye(2)}
+        e.two_ints = {"two_mo": np.zeros((2, 2, 2, 2))}
+        e.core_energy = 0.5
+        e.atffparams = {"attypes": np.array(["O", "H"]), "restypes": np.array(["X", "X"]), "resnums": np.array([1, 1])}
     if read_first:
         e.charge
     return e
 for fmt, mod in sorted(FORMAT_MODULES.items()):
+  for with_mo in (True, False):
     if not hasattr(mod, "dump_one"): continue
     outcome = []
     for read_first in (False, True):
         cases += 1
-        e = early(read_first)
+        e = early(read_first, with_mo)
+        obs_e = observables(e)
         fn = os.path.join(tmp, f"e.{fmt}")
         with warnings.catch_warnings(record=True) as w:
             warnings.simplefilter("always")
@@ -223,6 +233,8 @@ for fmt, mod in sorted(FORMAT_MODULES.items()):
                 outcome.append((type(exc).__name__, repr(exc.__cause__)[:120]))
                 if isinstance(exc, PrepareDumpError) and any(issubclass(x.category, PrepareDumpWarning) for x in w):
                     fails.append((("charge assigned before the atoms, object not read before the dump" if not read_first else "charge assigned before the atoms", fmt, repr(exc.__cause__)[:120]), "a conversion was announced (PrepareDumpWarning) and then refused (PrepareDumpError)"))
+        for k, v in observables(e).items():
+            if obs_e[k] != v: fails.append(((fmt, k, obs_e[k], v), "dump_one altered a derived property of the caller's object")); break
     if outcome[0] != outcome[1] and fmt != "json_qcschema":
         fails.append(((fmt, outcome[0][0], outcome[1][0]), "the outcome of dump_one depends on whether the object was read before"))
 sig = {}
